@@ -140,7 +140,7 @@ def _select(item, res, viol):
                 with open(os.path.join(root, "cond_config.toml"), "w") as f:
                     f.write("disable_git = true\n")
             git = fake_for(dag, head, "git" if mode == "disable_git" else mode)
-            with driver.patched([(m["cgit"], "subprocess", vkmod.Facade(subprocess, {"run": git.run}))]):
+            with driver.patched(driver.git_seam(git)):
                 ctx = Context(pathlib.Path(root))
 
                 def fresh_task():
@@ -369,7 +369,7 @@ def _gitconf_inner(item, res, viol):
                 except Exception as ex:  # noqa - compared as a value: real and fake must fail alike
                     return "raises:%s" % type(ex).__name__
             a = safe(real)
-            with driver.patched([(m["cgit"], "subprocess", vkmod.Facade(subprocess, {"run": fake.run}))]):
+            with driver.patched(driver.git_seam(fake)):
                 b = safe(Git(pathlib.Path(root)))
             return a, b
 
@@ -507,7 +507,7 @@ def _gitconf_special_inner(res, viol):
                 except Exception as ex:  # noqa
                     return "raises:%s" % type(ex).__name__
             a = safe(real)
-            with driver.patched([(m["cgit"], "subprocess", vkmod.Facade(subprocess, {"run": fake.run}))]):
+            with driver.patched(driver.git_seam(fake)):
                 b = safe(Git(rr))
             res["traces_validated"] += 1
             if a != b:
